@@ -363,6 +363,16 @@ fn c12(em: &mut Em, rng: &mut Rng, thorough: bool) {
     histories(em, rng, if thorough { 3000 } else { 400 }, &g12);
     for s in sts.iter().take(3) { for (fin, sm) in [('h', true), ('l', false)] { for private in [false, true] { for n in [3u32, 4, 5, 6, 7, 20, 25, 96, 160, 192, 224, 800, 1, 2] {
         let t = format!("{}{}", if private { "?" } else { "" }, n); let o = if sm { Op::Sm(vec![n], private) } else { Op::Rm(vec![n], private) }; em.probe_via_parser(s, &o, &csi(&t, fin), true); } } } }
+    // the `h`/`l` finals and their private flag as delivered to the listener, also right after sequences that end
+    // without a dispatch (CSI ... $ x, CSI aborted by CAN/SUB) or after arbitrary other tokens
+    events(em, rng, if thorough { 4000 } else { 500 }, &mut |r| {
+        let mut t = String::new();
+        for _ in 0..(1 + r.below(3)) {
+            match r.below(6) { 0 => t.push_str(&gen_token(r)), 1 | 2 => t.push_str(&format!("\u{1b}[{}{}{}", if r.chance(2, 3) { "?" } else { "" }, r.below(30), r.pick(&["$p", "\u{18}", "\u{1a}", "$x", ";"]))), _ => {} }
+            let (m, p) = gen_modes(r);
+            t.push_str(&format!("{}{}{}{}", if r.chance(3, 4) { "\u{1b}[" } else { "\u{9b}" }, if p { "?" } else { "" }, m.iter().map(|x| x.to_string()).collect::<Vec<_>>().join(";"), if r.chance(1, 2) { 'h' } else { 'l' }));
+        }
+        t });
 }
 
 // ------------------------------------------------------------------ C14 save/restore
